@@ -91,6 +91,8 @@ def run_case(case, ctx):
             stamp = base + datetime.timedelta(hours=ver['stamp'], microseconds=ver.get('us', 0))      # stamps may differ by less than a millisecond
             if case.get('tz'):
                 stamp = pd.Timestamp(stamp, tz='UTC')        # timezone-aware publication stamps: instants, whatever zone a reader quotes them in
+            elif case.get('ns_stamps'):
+                stamp = pd.Timestamp(stamp) + pd.Timedelta(ver.get('ns', 0), 'ns')      # stamps from a nanosecond clock: publications inside one microsecond are still one after the other
             idx = [dates[i] for i in ver['idx']]
             vals = [float('nan') if v is None else float(v) for v in ver['vals']]
             s = pd.Series(vals, index=pd.DatetimeIndex(idx), dtype=float, name=case.get('series_name'))       # a series usually carries a name
@@ -107,7 +109,7 @@ def run_case(case, ctx):
                 ctx.check('merge_operands_unchanged', list(tbl.columns) == cols_before, lambda: 'Bi(table, stamp) wrote into the table it was given: columns %s -> %s' % (cols_before, list(tbl.columns)))
                 bs.append(bi_)
             else:
-                bs.append(Bi(s, stamp))
+                bs.append(Bi(s, stamp.to_datetime64() if (case.get('ns_stamps') and gi % 2 == 0) else stamp))
             versions.append((stamp, s))
             stamps.append(stamp)
             for d, v in zip(idx, vals):
@@ -311,7 +313,10 @@ def check_reads(ctx, store, ledger, stamps, where, mon_prefix=None):
         for what in (-1, 0):
             # the read time in the flavours a caller may hold it in: datetime, pandas Timestamp, numpy datetime64
             Tq = T if T is None or (ti + what) % 3 == 0 else (_pd.Timestamp(T) if (ti + what) % 3 == 1 else np.datetime64(T))
-            if T is not None and getattr(T, 'tzinfo', None) is None and (ti * 7 + what + len(us)) % 4 == 0:
+            ns_ = isinstance(T, _pd.Timestamp) and T.tzinfo is None
+            if ns_:
+                Tq = T if (ti + what) % 2 else T.to_datetime64()        # a read time to the nanosecond: as a Timestamp or as a numpy datetime64[ns]
+            if T is not None and not ns_ and getattr(T, 'tzinfo', None) is None and (ti * 7 + what + len(us)) % 4 == 0:
                 # ... or in the spellings Bi / bi_merge accept for a stamp: ISO text, and for a midnight a date or a yyyymmdd integer
                 midnight = T == datetime.datetime(T.year, T.month, T.day)
                 epoch = (T - datetime.datetime(1970, 1, 1)) / datetime.timedelta(seconds=1)      # seconds since 1970 (UTC, like every naive stamp here): a float, or an int on a whole second
@@ -387,6 +392,12 @@ def gen_case(rng):
         case['future'] = True
     elif rng.random() < 0.2:
         case['tz'] = True
+    elif rng.random() < 0.15:
+        case['ns_stamps'] = True
+        ns = 0
+        for v_ in versions:
+            ns += rng.choice([0, 1, 1, 40, 300])
+            v_['ns'] = ns
     if rng.random() < 0.4:
         batch, left = [], nv
         while left:
